@@ -151,8 +151,8 @@ const WEDGE_BUDGET: usize = 6;
 fn free_port() -> u16 {
     loop {
         let n = NEXT_PORT.fetch_add(1, SeqCst);
-        let base = 20000 + (std::process::id() as usize % 5) * 7000;
-        let port = (base + n % 7000) as u16;
+        let base = verif_harness::port_slot(2000);
+        let port = (base + n % 2000) as u16;
         if std::net::TcpListener::bind(("127.0.0.1", port)).is_ok() { return port; }
     }
 }
